@@ -164,15 +164,39 @@ def make_script(doc, rules=None, default=None, schema_format="json"):
     return Script([schema_rule] + list(rules or []), default)
 
 
+# Set by the last run of this process: True when the watchdog ended a run that was still making progress (requests kept
+# arriving at the API) - slow, not stuck. The emitter files such a run as "slow, not judged" instead of inconclusive.
+LAST = {"slow": False}
+
+
 @contextlib.contextmanager
-def _watchdog(seconds, on_fire):
-    timer = threading.Timer(seconds, on_fire)
-    timer.daemon = True
-    timer.start()
+def _watchdog(seconds, on_fire, progress=None, extensions=2):
+    """Fires `on_fire` after `seconds` without completion. With a `progress` callable (a monotone counter) the
+    deadline is extended up to `extensions` times while the counter keeps moving; a run that is ended although it was
+    still moving is marked slow, one that stood still is a suspected hang."""
+    done = threading.Event()
+    LAST["slow"] = False
+
+    def watch():
+        last = progress() if progress else None
+        for attempt in range(extensions + 1):
+            if done.wait(seconds):
+                return
+            now = progress() if progress else None
+            moved = progress is not None and now != last
+            last = now
+            if not moved:
+                on_fire()
+                return
+        LAST["slow"] = True
+        on_fire()
+
+    thread = threading.Thread(target=watch, daemon=True)
+    thread.start()
     try:
         yield
     finally:
-        timer.cancel()
+        done.set()
 
 
 def _reset_global_state():
@@ -241,7 +265,7 @@ def run_cli(
         # the product inspects sys.argv to describe how it was started (cassette `command:` field)
         sys.argv = ["st"] + argv
         try:
-            with _watchdog(timeout, fire), contextlib.redirect_stdout(out), contextlib.redirect_stderr(err):
+            with _watchdog(timeout, fire, progress=lambda: len(server.log)), contextlib.redirect_stdout(out), contextlib.redirect_stderr(err):
                 try:
                     st_cli.schemathesis.main(args=argv, prog_name="st", standalone_mode=True)
                     result.exit_code = 0
@@ -382,7 +406,7 @@ def run_api(
 
         controller.install()
         try:
-            with _watchdog(timeout, fire):
+            with _watchdog(timeout, fire, progress=lambda: len(server.log)):
                 generator = iter(stream)
                 idx = 0
                 pending_throw = False
